@@ -6,7 +6,9 @@ toggle bits, write gaps, accept delays, announce delays, buffer scribbling).  Ea
 by cycle against the real `Serial.update()` on a real SyncGroup frame: a scripted EL6002 channel
 reads the output half of the process image (bits and the 23p string at the offsets of the real
 EL6002.Channel layout) and writes the input half; the application side writes to / drains the
-device's real pipes.  TLC validates the recorded run step by step against Serial and requires
+device's real pipes.  A share of the behaviours is also played with the sync group pickled into a
+really spawned child (as ProcessSyncGroup does) and the application on the streams of the real
+Serial.connect() in the creating process (harness/serialrig.py).  TLC validates the recorded run step by step against Serial and requires
 that it ends with everything transferred."""
 import json
 import os
@@ -19,8 +21,6 @@ LEVEL = "model_checking"
 
 TX_SIZES = (1, 2, 7, 21, 22, 23, 30, 44, 45, 50)
 RX_SIZES = (0, 1, 5, 21, 22)
-IDLE_END = 3          # quiet cycles after which a run is considered finished
-SLACK = 12            # cycles granted beyond what the script's delays add up to
 
 
 def payloads(script, rng):
@@ -30,198 +30,7 @@ def payloads(script, rng):
     return dict(script, tx=tx, rx=rx, junk=list(rng.randbytes(rng.choice((0, 3, 22)))))
 
 
-class Rig:
-    """a real Serial device on channel `ch` of a real EL6002 in a real SyncGroup"""
-
-    def __init__(self, ch):
-        from ebpfcat.ebpfcat import SimpleEtherCat, SyncGroup
-        from ebpfcat.ethercat import SyncManager
-        from ebpfcat.serial import Serial
-        from ebpfcat.terminals import EL6002
-        self.fds = []
-        ec = SimpleEtherCat("x")
-        term = EL6002(ec)
-        term.position = 5
-        term.pdo_in_sz = term.pdo_out_sz = 48
-        dev = Serial(term.channel1 if ch == 1 else term.channel2)
-        self.fds = [dev.in_read, dev.in_write, dev.out_read, dev.out_write]
-        self.dev = dev
-        sg = SyncGroup(ec, [dev])
-        sg.allocate()
-        sg.wkc_errors = 0
-        sg.asm_packet = sg.packet.assemble(1000, ec.ethertype)
-        sg.current_data = bytearray(sg.asm_packet)
-        self.sg = sg
-        off = 24 * (ch - 1)
-        self.i0 = sg.pdo_assign[term][SyncManager.IN] + off      # status byte, then 23p string
-        self.o0 = sg.pdo_assign[term][SyncManager.OUT] + off     # control byte, then 23p string
-        self.inb = bytearray(24)                                 # the terminal's input half
-
-    def close(self):
-        for fd in self.fds:
-            try:
-                os.close(fd)
-            except OSError:
-                pass
-        self.fds = []
-
-    # the output half as the terminal sees it
-    def out(self):
-        d = self.sg.current_data
-        c = d[self.o0]
-        n = d[self.o0 + 1]
-        return dict(TR=bool(c & 1), RA=bool(c & 2), IR=bool(c & 4), n=n,
-                    outStr=list(d[self.o0 + 2:self.o0 + 2 + min(n, 22)]))
-
-    def set_bits(self, TA=None, RR=None, IA=None):
-        for bit, v in ((1, TA), (2, RR), (4, IA)):
-            if v is True:
-                self.inb[0] |= bit
-            elif v is False:
-                self.inb[0] &= ~bit & 0xff
-
-    def bit(self, b):
-        return bool(self.inb[0] & b)
-
-    def set_string(self, data):
-        self.inb[1] = len(data)
-        self.inb[2:24] = bytes(data) + bytes(22 - len(data))
-
-    def cycle(self):
-        """one bus round trip: the frame comes back with the input half and the counters"""
-        fr = bytearray(self.sg.current_data)
-        fr[self.i0:self.i0 + 24] = self.inb
-        for pos, cnt in self.sg.packet.counters.items():
-            fr[pos] = cnt & 0xff
-            fr[pos + 1] = cnt >> 8
-        self.sg.update_devices(fr)
-
-    def drain(self):
-        got = b""
-        while True:
-            try:
-                b = os.read(self.dev.in_read, 4096)
-            except BlockingIOError:
-                return list(got)
-            if not b:
-                return list(got)
-            got += b
-
-
-def drive(script, ch=1):
-    """play one behaviour; returns the recorded trace (list of events)"""
-    rig = Rig(ch)
-    try:
-        return _drive(rig, script)
-    finally:
-        rig.close()
-
-
-def _drive(rig, sc):
-    ini = sc["init"]
-    ev = []
-    # application schedule: absolute cycles of the writes
-    at, writes = 0, []
-    for w in sc["tx"]:
-        at += w["gap"]
-        writes.append((at, w["data"]))
-    budget = (SLACK + ini["di"] + ini["dr"] + sum(w["gap"] for w in sc["tx"])
-              + sum(1 + w["d"] for w in sc["tx"]) * 4 + sum(2 + r["gap"] for r in sc["rx"]))
-    # terminal state
-    inited = ready = False
-    wait_init, wait_ready = ini["di"], ini["dr"]
-    seen_tr = False
-    n_acc = 0
-    wait_acc = None
-    rx = list(sc["rx"])
-    awaiting, t_ra, wait_ann, scribbled = False, False, None, True
-    quiet = 0
-    dead = False
-    for cyc in range(budget):
-        busy = False
-        for a, data in writes:
-            if a == cyc:
-                os.write(rig.dev.out_write, bytes(data))
-                ev.append(dict(op="write", data=data))
-                busy = True
-        o = rig.out()
-        # --- the terminal looks at the output half and acts
-        if not inited:
-            if o["IR"]:
-                if wait_init > 0:
-                    wait_init -= 1
-                else:
-                    inited = True
-                    rig.set_bits(TA=ini["ta"], RR=ini["rr"], IA=True)
-                    seen_tr = o["TR"]
-                    ev.append(dict(op="t_initack", TA=ini["ta"], RR=ini["rr"]))
-                busy = True
-        elif not ready:
-            busy = True
-            if not o["IR"]:
-                if wait_ready > 0:
-                    wait_ready -= 1
-                else:
-                    ready = True
-                    rig.set_bits(IA=False)
-                    ev.append(dict(op="t_ready"))
-        if ready:
-            if o["TR"] != seen_tr:
-                busy = True
-                if wait_acc is None:
-                    wait_acc = sc["tx"][n_acc]["d"] if n_acc < len(sc["tx"]) else 0
-                if wait_acc > 0:
-                    wait_acc -= 1
-                else:
-                    wait_acc = None
-                    n_acc += 1
-                    seen_tr = o["TR"]
-                    rig.set_bits(TA=not rig.bit(1))
-                    ev.append(dict(op="t_accept", took=o["outStr"]))
-            free = not awaiting or o["RA"] != t_ra
-            if free and awaiting and not scribbled:
-                scribbled = True
-                if sc["scribble"]:
-                    rig.set_string(sc["junk"])
-                    ev.append(dict(op="t_scribble", data=sc["junk"]))
-            if free and rx:
-                busy = True
-                if wait_ann is None:
-                    wait_ann = rx[0]["gap"]
-                if wait_ann > 0:
-                    wait_ann -= 1
-                else:
-                    wait_ann = None
-                    data = rx.pop(0)["data"]
-                    rig.set_string(data)
-                    rig.set_bits(RR=not rig.bit(2))
-                    awaiting, t_ra, scribbled = True, o["RA"], False
-                    ev.append(dict(op="t_announce", data=data))
-            elif not free:
-                busy = True
-        # --- the bus cycle: the real device updates
-        before = o
-        try:
-            rig.cycle()
-        except Exception as e:      # a case result: Serial has no step for it
-            ev.append(dict(op="update", res="raise:" + type(e).__name__, TR=False, RA=False,
-                           IR=False, outStr=[], got=[]))
-            dead = True
-            break
-        o = rig.out()
-        got = rig.drain()
-        ev.append(dict(op="update", res="ok" if o["n"] <= 22 else "overlong", TR=o["TR"],
-                       RA=o["RA"], IR=o["IR"], outStr=o["outStr"], got=got))
-        if (o["TR"], o["RA"], o["IR"]) != (before["TR"], before["RA"], before["IR"]) or got:
-            busy = True
-        if any(a > cyc for a, _ in writes):
-            busy = True
-        quiet = 0 if busy else quiet + 1
-        if quiet >= IDLE_END:
-            break
-    if not dead:
-        ev.append(dict(op="end", left=len(rx)))     # chunks the terminal never got to announce
-    return ev
+from harness.serialrig import drive, drive_spawned   # noqa: E402  (re-exported for replay)
 
 
 def enumerate_scripts(ctx, wd, K, gaps, maxtx, maxrx, full):
@@ -310,11 +119,20 @@ CHECK_DEADLOCK FALSE
                  dict(K=2, gaps=(0, 2), maxtx=2, maxrx=3, full=False)]
     ctx.extra["grids"] = grids
 
+    # every `stride`-th behaviour of the grids is played a second time with the device in a really
+    # spawned child (pickled there, Serial.__getstate__) and the application on Serial.connect()
+    stride = 12 if ctx.quick else 40
+
     def cases():
         det = random.Random(2028)          # payloads of the gating grid do not depend on the seed
+        n = 0
         for g in grids:
             for i, s in enumerate(enumerate_scripts(ctx, wd, **g)):
-                yield dict(script=payloads(s, det), ch=1 + i % 2, origin="grid")
+                meta = dict(script=payloads(s, det), ch=1 + i % 2, origin="grid", setup="local")
+                yield meta
+                n += 1
+                if n % stride == 0:
+                    yield dict(meta, setup="spawned")
         rng = ctx.rng                      # extra: random behaviours, longer
         for i in range(150 if ctx.quick else 1500):
             K = rng.randint(0, 4)
@@ -324,14 +142,21 @@ CHECK_DEADLOCK FALSE
                          for _ in range(rng.randint(0, 6))],
                      rx=[dict(gap=rng.randint(0, K)) for _ in range(rng.randint(0, 6))],
                      scribble=rng.random() < .5)
-            yield dict(script=payloads(s, rng), ch=rng.choice((1, 2)), origin="random")
+            yield dict(script=payloads(s, rng), ch=rng.choice((1, 2)), origin="random",
+                       setup="spawned" if i % 5 == 0 else "local")
 
-    batch = []
+    batch, spawned = [], []
     for meta in cases():
+        if meta["setup"] == "spawned":
+            spawned.append(meta)
+            continue
         batch.append((meta, drive(meta["script"], meta["ch"])))
         if len(batch) >= 4000:
             judge(ctx, wd, batch)
             batch = []
+    traces = drive_spawned([(m["script"], m["ch"]) for m in spawned])
+    batch.extend(zip(spawned, traces))
+    ctx.extra["runs_in_spawned_child"] = len(spawned)
     if batch:
         judge(ctx, wd, batch)
     ctx.extra["open_fds_after"] = len(os.listdir("/proc/self/fd"))
@@ -341,15 +166,20 @@ CHECK_DEADLOCK FALSE
                             f"<= {g['maxrx']} announced chunks, {'all' if g['full'] else '4'} init variants]"
                             for g in grids)
                 + " (TLC-enumerated), payload sizes drawn from fixed lists incl. 0, 1, 22, 23..50 "
-                  "bytes, plus seeded random longer behaviours; non-trivial = at least one chunk "
+                  "bytes, plus seeded random longer behaviours; every " + str(stride) + "th grid behaviour "
+                  "and every 5th random one also with the device pickled into a spawned child and "
+                  "the application on Serial.connect(); non-trivial = at least one chunk "
                   "accepted by the terminal and one announced by it")
 
 
 def replay_case(case):
+    if case.get("setup") == "spawned":
+        return drive_spawned([(case["script"], case.get("ch", 1))])[0]
     return drive(case["script"], case.get("ch", 1))
 
 
 def replay(ctx, case):
     """./check C28 --replay <file>: run the case again and let TLC judge it"""
-    meta = dict(script=case["script"], ch=case.get("ch", 1), origin=case.get("origin", "replay"))
+    meta = dict(script=case["script"], ch=case.get("ch", 1), origin=case.get("origin", "replay"),
+                setup=case.get("setup", "local"))
     judge(ctx, ctx.workdir(), [(meta, replay_case(case))])
